@@ -197,7 +197,34 @@ impl E2Run for Route {
             for r in 0..n_routers {
                 let n_pert = sim::choose(3);
                 for _ in 0..n_pert {
-                    match sim::choose(4) {
+                    match sim::choose(6) {
+                        4 | 5 if !hosts.is_empty() => {
+                            // nested prefixes of adjacent lengths around one host, each
+                            // pointing somewhere else: only the longest may win
+                            let h = hosts[sim::choose(hosts.len() as u64) as usize];
+                            let nb = neighbours(r);
+                            if !nb.is_empty() && !router_subnets[r].contains(&h.0) {
+                                let lens: &[u32] = match sim::choose(4) {
+                                    0 => &[31, 32],
+                                    1 => &[30, 31],
+                                    2 => &[25, 31, 32],
+                                    _ => &[23, 24, 25],
+                                };
+                                for bits in lens {
+                                    let (o, sn) = nb[sim::choose(nb.len() as u64) as usize];
+                                    let mask = if *bits == 0 { 0 } else { u32::MAX << (32 - bits) };
+                                    let ip = (u(h.1) & mask).to_be_bytes();
+                                    if !tables[r].iter().any(|e| e.bits == *bits && e.ip == ip) {
+                                        tables[r].push(Entry {
+                                            ip,
+                                            bits: *bits,
+                                            next: Some(router_ip(o, sn)),
+                                            slot: router_subnets[r].iter().position(|x| *x == sn).unwrap(),
+                                        });
+                                    }
+                                }
+                            }
+                        }
                         0 if !tables[r].is_empty() => {
                             let k = sim::choose(tables[r].len() as u64) as usize;
                             if tables[r][k].next.is_some() {
